@@ -4,6 +4,8 @@ package main
 // without writing into /repo.
 
 import (
+	"math/big"
+	"strconv"
 	"bytes"
 	"context"
 	"encoding/json"
@@ -180,7 +182,67 @@ func smtValToGo(v string) (string, bool) {
 	if strings.HasPrefix(v, "#x") {
 		return "0x" + v[2:], true
 	}
-	if strings.HasPrefix(v, "(fp ") || strings.HasPrefix(v, "(_ ") {
+	if strings.HasPrefix(v, "(fp ") {
+		// (fp #b0 #x7f #b000...) -> math.Float32frombits(0x...)
+		parts := strings.Fields(strings.TrimSuffix(v[4:], ")"))
+		if len(parts) == 3 {
+			bits := ""
+			for _, p := range parts {
+				switch {
+				case strings.HasPrefix(p, "#b"):
+					bits += p[2:]
+				case strings.HasPrefix(p, "#x"):
+					for _, c := range p[2:] {
+						n, err := strconv.ParseUint(string(c), 16, 8)
+						if err != nil {
+							return "", false
+						}
+						bits += fmt.Sprintf("%04b", n)
+					}
+				}
+			}
+			if len(bits) == 32 {
+				n, err := strconv.ParseUint(bits, 2, 32)
+				if err == nil {
+					return fmt.Sprintf("math.Float32frombits(0x%08x)", n), true
+				}
+			}
+		}
+		return "", false
+	}
+	if strings.HasPrefix(v, "(_ bv") {
+		// (_ bv123 64): 64-bit vector, two's complement
+		f := strings.Fields(v[5:])
+		if len(f) >= 1 {
+			n := new(big.Int)
+			if _, ok := n.SetString(f[0], 10); ok {
+				if n.Bit(63) == 1 {
+					n.Sub(n, new(big.Int).Lsh(big.NewInt(1), 64))
+				}
+				return n.String(), true
+			}
+		}
+		return "", false
+	}
+	if strings.HasPrefix(v, "#b") && len(v) == 66 {
+		n := new(big.Int)
+		if _, ok := n.SetString(v[2:], 2); ok {
+			if n.Bit(63) == 1 {
+				n.Sub(n, new(big.Int).Lsh(big.NewInt(1), 64))
+			}
+			return n.String(), true
+		}
+	}
+	if strings.HasPrefix(v, "#x") && len(v) == 18 {
+		n := new(big.Int)
+		if _, ok := n.SetString(v[2:], 16); ok {
+			if n.Bit(63) == 1 {
+				n.Sub(n, new(big.Int).Lsh(big.NewInt(1), 64))
+			}
+			return n.String(), true
+		}
+	}
+	if strings.HasPrefix(v, "(_ ") {
 		return "", false
 	}
 	for _, c := range v {
